@@ -150,5 +150,9 @@ Definition realises (nd : node) (e : envelope) (p : payload) (v : verdict) (o : 
 (* number of calls that hand the event itself (not a probe marker) to a sink *)
 Definition is_probe_data (d : fields) : bool :=
   match slookup meta_refinery_probe d with Some (VBool true) => true | _ => false end.
+(* only a call on the peer transmission whose payload carries the probe flag is a marker; anything
+   handed to the collector, the stress path or upstream is a handling of the event *)
+Definition is_marker (s : sink) (d : fields) : bool :=
+  match s with SPeer => is_probe_data d | _ => false end.
 Definition handlings (l : list emission) : nat :=
-  length (filter (fun m => negb (is_probe_data (m_data m))) l).
+  length (filter (fun m => negb (is_marker (m_sink m) (m_data m))) l).
